@@ -1,9 +1,460 @@
+import RsslVerif.Model.GenHlsl
+import RsslVerif.Spec.SemWT
 import RsslVerif.Driver.Util
-/-! Line-protocol front end of the C01 model (stub until the model is built). -/
+/-!
+Line-protocol front end of the C01 model.
+
+`C01.fn <source> <function> <argument vectors> <ctx> <ir>`: parses the IR s-expressions the harness produced from the
+real `ir::Module`, recomputes the exporter's tree with `GenHlsl.genFunc`, prints it, and runs `Ir.phi` (typed semantics)
+on every argument vector with the concrete primitive interpretation the harness uses; it also runs `Ast.phi` on the
+generated program and appends `MODEL-AST-DIFF` if the two semantics disagree (an instance of theorem `gen_sem_*`).
+(Imports `Spec.SemStmt` besides the models: the evaluators are core-only Lean and are what is executed here.)
+-/
 namespace RsslVerif.Driver.C01
+open RsslVerif.Gen.HlslGenTables RsslVerif.Model RsslVerif.Model.GenHlsl RsslVerif.Spec.Sem RsslVerif.Driver
+open RsslVerif.Model.Ir (Ty Var Const Dir)
+
+/-! ## s-expressions -/
+inductive Sx where
+  | a (s : String)
+  | l (xs : List Sx)
+  deriving Inhabited
+
+partial def Sx.show : Sx → String
+  | .a s => s
+  | .l xs => "(" ++ " ".intercalate (xs.map Sx.show) ++ ")"
+
+def tokenize (s : String) : List String :=
+  let rec go (cs : List Char) (cur : List Char) (acc : List String) : List String :=
+    let flush := if cur.isEmpty then acc else String.ofList cur.reverse :: acc
+    match cs with
+    | [] => flush.reverse
+    | c :: r =>
+      if c == '(' then go r [] ("(" :: flush)
+      else if c == ')' then go r [] (")" :: flush)
+      else if c == ' ' then go r [] flush
+      else go r (c :: cur) acc
+  go s.toList [] []
+
+/-- parse a sequence of items up to the matching `)` (or end of input) -/
+partial def parseItems : List String → List Sx → (List Sx × List String)
+  | [], acc => (acc.reverse, [])
+  | ")" :: r, acc => (acc.reverse, r)
+  | "(" :: r, acc =>
+    let (items, rest) := parseItems r []
+    parseItems rest (Sx.l items :: acc)
+  | t :: r, acc => parseItems r (Sx.a t :: acc)
+
+def parseAll (s : String) : List Sx := (parseItems (tokenize s) []).1
+
+def Sx.head : Sx → String
+  | .l (.a h :: _) => h
+  | _ => ""
+
+def Sx.args : Sx → List Sx
+  | .l (_ :: r) => r
+  | _ => []
+
+def Sx.atom : Sx → String
+  | .a s => s
+  | _ => ""
+
+partial def Sx.hasHead (h : String) : Sx → Bool
+  | .a _ => false
+  | .l xs => (Sx.l xs).head == h || xs.any (Sx.hasHead h)
+
+/-! ## numbers -/
+def hexVal? (s : String) : Option Nat :=
+  s.toList.foldl (fun acc c => match acc, hexDigit? c with
+    | some n, some d => some (n * 16 + d)
+    | _, _ => none) (some 0)
+
+def hexOf (digits : Nat) (n : Nat) : String :=
+  String.ofList ((List.range digits).reverse.map fun k => hexNibble ((n / 16 ^ k) % 16))
+
+def tyOf? : String → Option Ty
+  | "bool" => some .bool | "int" => some .int | "uint" => some .uint | "float" => some .float
+  | "lit" => some .lit | "flit" => some .flit | "void" => some .void | _ => none
+
+def showVal : Val → String
+  | .b x => "b:" ++ (if x then "1" else "0")
+  | .i x => "i:" ++ hexOf 8 x.toNat
+  | .u x => "u:" ++ hexOf 8 x.toNat
+  | .f x => "f:" ++ hexOf 8 x.toNat
+  | .lit n => "l:" ++ toString n
+  | .flit x => "d:" ++ hexOf 16 x.toNat
+  | .void => "v"
+
+def parseVal? (s : String) : Option Val :=
+  if s == "v" then some .void else
+  match s.splitOn ":" with
+  | [k, r] =>
+    match k with
+    | "b" => some (.b (r == "1"))
+    | "i" => (hexVal? r).map fun n => .i (BitVec.ofNat 32 n)
+    | "u" => (hexVal? r).map fun n => .u (BitVec.ofNat 32 n)
+    | "f" => (hexVal? r).map fun n => .f (BitVec.ofNat 32 n)
+    | "l" => r.toInt?.map .lit
+    | "d" => (hexVal? r).map fun n => .flit (BitVec.ofNat 64 n)
+    | _ => none
+  | _ => none
+
+/-! ## IR from s-expressions -/
+def parseConst? (x : Sx) : Option Const :=
+  match x.args with
+  | [k, v] =>
+    match k.atom with
+    | "bool" => some (.bool (v.atom == "1"))
+    | "intlit" => v.atom.toInt?.map .intLit
+    | "i32" => (hexVal? v.atom).map fun n => .int32 (BitVec.ofNat 32 n)
+    | "u32" => (hexVal? v.atom).map fun n => .uint32 (BitVec.ofNat 32 n)
+    | "f32" => (hexVal? v.atom).map fun n => .float32 (BitVec.ofNat 32 n)
+    | "flit" => (hexVal? v.atom).map fun n => .floatLit (BitVec.ofNat 64 n)
+    | _ => none
+  | _ => none
+
+mutual
+partial def parseExpr? (x : Sx) : Option Ir.Expr :=
+  match x.head, x.args with
+  | "lit", _ => (parseConst? x).map .lit
+  | "var", [n] => n.atom.toNat?.map .var
+  | "glob", [n] => n.atom.toNat?.map .global
+  | "tern", [c, t, f] => do
+    let c ← parseExpr? c; let t ← parseExpr? t; let f ← parseExpr? f
+    pure (.tern c t f)
+  | "seq", es => (parseExprs? es).map .seq
+  | "cast", [t, e] => do
+    let t ← tyOf? t.atom; let e ← parseExpr? e
+    pure (.cast t e)
+  | "op", o :: es => do
+    let o ← IntrinsicOp.ofName? o.atom
+    let es ← parseExprs? es
+    pure (.op o es)
+  | "call", f :: es => do
+    let f ← f.atom.toNat?
+    let es ← parseExprs? es
+    pure (.call f es)
+  | _, _ => none
+partial def parseExprs? : List Sx → Option Ir.Exprs
+  | [] => some .nil
+  | x :: r => do
+    let e ← parseExpr? x
+    let t ← parseExprs? r
+    pure (.cons e t)
+end
+
+def parseOptExpr? (x : Sx) : Option (Option Ir.Expr) :=
+  if x.head == "none" then some none else (parseExpr? x).map some
+
+def parseVarDef? (items : List Sx) : Option (Nat × Option Ir.Expr) :=
+  match items with
+  | [n] => n.atom.toNat?.map (·, none)
+  | [n, e] => do
+    let n ← n.atom.toNat?; let e ← parseExpr? e
+    pure (n, some e)
+  | _ => none
+
+mutual
+partial def parseStmt? (x : Sx) : Option Ir.Stmt :=
+  match x.head, x.args with
+  | "expr", [e] => (parseExpr? e).map .expr
+  | "var", items => (parseVarDef? items).map fun (n, i) => .var n i
+  | "block", [b] => (parseBlock? b).map .block
+  | "if", [c, b] => do
+    let c ← parseExpr? c; let b ← parseBlock? b
+    pure (.ifThen c b)
+  | "ifelse", [c, t, f] => do
+    let c ← parseExpr? c; let t ← parseBlock? t; let f ← parseBlock? f
+    pure (.ifElse c t f)
+  | "for", [i, c, n, b] => do
+    let init ← match i.head with
+      | "none" => some Ir.ForInit.empty
+      | "e" => (i.args.head?.bind parseExpr?).map Ir.ForInit.expr
+      | "defs" => (sequenceOpt (i.args.map fun d => parseVarDef? d.args)).map Ir.ForInit.defs
+      | _ => none
+    let c ← parseOptExpr? c; let n ← parseOptExpr? n; let b ← parseBlock? b
+    pure (.for init c n b)
+  | "while", [c, b] => do
+    let c ← parseExpr? c; let b ← parseBlock? b
+    pure (.while c b)
+  | "dowhile", [b, c] => do
+    let b ← parseBlock? b; let c ← parseExpr? c
+    pure (.doWhile b c)
+  | "break", [] => some .break
+  | "continue", [] => some .continue
+  | "ret", [] => some (.ret none)
+  | "ret", [e] => (parseExpr? e).map fun e => .ret (some e)
+  | _, _ => none
+partial def parseStmts? : List Sx → Option Ir.Stmts
+  | [] => some .nil
+  | x :: r => do
+    let s ← parseStmt? x
+    let t ← parseStmts? r
+    pure (.cons s t)
+partial def parseBlock? (x : Sx) : Option Ir.Stmts :=
+  if x.head == "b" then parseStmts? x.args else none
+end
+
+def parseDir? : String → Option Dir
+  | "in" => some .in_ | "out" => some .out | "inout" => some .inout | _ => none
+
+def parseFunc? (x : Sx) : Option Ir.Func :=
+  match x.head, x.args with
+  | "fn", [id, ret, ps, body] => do
+    let id ← id.atom.toNat?
+    let ret ← tyOf? ret.atom
+    let ps ← sequenceOpt (ps.args.map fun p =>
+      match p.args with
+      | [n, d, t] => do
+        let n ← n.atom.toNat?; let d ← parseDir? d.atom; let t ← tyOf? t.atom
+        pure (n, d, t)
+      | _ => none)
+    let body ← parseBlock? body
+    pure { id := id, ret := ret, params := ps, body := body }
+  | _, _ => none
+
+/-! ## the exporter's tree as s-expression text -/
+def showLit : HlslAst.Lit → String
+  | .bool b => "(lit bool " ++ (if b then "1" else "0") ++ ")"
+  | .intUntyped n => "(lit int " ++ toString n ++ ")"
+  | .intUnsigned32 n => "(lit uint " ++ toString n ++ ")"
+  | .float32 x => "(lit f32 " ++ hexOf 8 x.toNat ++ ")"
+  | .floatUntyped x => "(lit flt " ++ hexOf 16 x.toNat ++ ")"
+
+mutual
+def showExpr : HlslAst.Expr → String
+  | .lit l => showLit l
+  | .ident s => "(id " ++ s ++ ")"
+  | .un op e => "(un " ++ op.name ++ " " ++ showExpr e ++ ")"
+  | .bin op x y => "(bin " ++ op.name ++ " " ++ showExpr x ++ " " ++ showExpr y ++ ")"
+  | .tern c t f => "(tern " ++ showExpr c ++ " " ++ showExpr t ++ " " ++ showExpr f ++ ")"
+  | .cast t e => "(cast " ++ t ++ " " ++ showExpr e ++ ")"
+  | .call f args => "(call " ++ f ++ showArgs args ++ ")"
+def showArgs : HlslAst.Exprs → String
+  | .nil => ""
+  | .cons e r => " " ++ showExpr e ++ showArgs r
+end
+
+def showOptExpr : Option HlslAst.Expr → String
+  | none => "(none)"
+  | some e => showExpr e
+
+def showDef (d : String × Option HlslAst.Expr) : String :=
+  match d.2 with
+  | none => "(d " ++ d.1 ++ ")"
+  | some e => "(d " ++ d.1 ++ " " ++ showExpr e ++ ")"
+
+mutual
+def showStmt : HlslAst.Stmt → String
+  | .expr e => "(expr " ++ showExpr e ++ ")"
+  | .var t n i => "(var " ++ t ++ " " ++ showDef (n, i) ++ ")"
+  | .block b => "(block" ++ showStmts b ++ ")"
+  | .ifThen c b => "(if " ++ showExpr c ++ " " ++ showStmt b ++ ")"
+  | .ifElse c t f => "(ifelse " ++ showExpr c ++ " " ++ showStmt t ++ " " ++ showStmt f ++ ")"
+  | .for i c n b =>
+    let init := match i with
+      | .empty => "(none)"
+      | .expr e => "(e " ++ showExpr e ++ ")"
+      | .decl t ds => "(decl " ++ t ++ String.join (ds.map fun d => " " ++ showDef d) ++ ")"
+    "(for " ++ init ++ " " ++ showOptExpr c ++ " " ++ showOptExpr n ++ " " ++ showStmt b ++ ")"
+  | .while c b => "(while " ++ showExpr c ++ " " ++ showStmt b ++ ")"
+  | .doWhile b c => "(dowhile " ++ showStmt b ++ " " ++ showExpr c ++ ")"
+  | .break => "(break)"
+  | .continue => "(continue)"
+  | .ret none => "(ret)"
+  | .ret (some e) => "(ret " ++ showExpr e ++ ")"
+def showStmts : HlslAst.Stmts → String
+  | .nil => ""
+  | .cons s r => " " ++ showStmt s ++ showStmts r
+end
+
+def showDir : Dir → String
+  | .in_ => "in" | .out => "out" | .inout => "inout"
+
+def showFunc (f : HlslAst.Func) : String :=
+  let ps := f.params.map fun (n, d, t) => "(p " ++ n ++ " " ++ showDir d ++ " " ++ t ++ ")"
+  "(fn " ++ f.name ++ " " ++ f.ret ++ " (" ++ " ".intercalate ("params" :: ps) ++ ") (block" ++ showStmts f.body ++ "))"
+
+/-! ## the concrete primitive interpretation (must equal harness/src/c01/sx.rs) -/
+def fcode : MBin → Nat
+  | .add => 1 | .sub => 2 | .mul => 3 | .div => 4 | .mod => 5 | _ => 0
+
+def concretePrim : Prim where
+  fbin m x y := (x.rotateLeft 5 ^^^ (y * 0x9E3779B1#32)) + BitVec.ofNat 32 (fcode m)
+  fcmp m x y := match m with
+    | .lt => x.slt y | .le => x.sle y | .gt => y.slt x | .ge => y.sle x
+    | .eq => x == y | .ne => x != y | _ => false
+  fneg x := x ^^^ 0x80000000#32
+  fstep inc x := if inc then x + 0x00800000#32 else x - 0x00800000#32
+  idiv signed x y := if y == 0 then 0xFFFFFFFF#32 else if signed then x.sdiv y else x / y
+  imod signed x y := if y == 0 then x else if signed then x.srem y else x % y
+  i2f x := (x * 3#32) ^^^ 0x4B000000#32
+  u2f x := (x * 5#32) ^^^ 0x4F000000#32
+  f2i x := (x ^^^ 0x4B000000#32) * 0xAAAAAAAB#32
+  f2u x := (x ^^^ 0x4F000000#32) * 0xCCCCCCCD#32
+  f2b x := (x &&& 0x7FFFFFFF#32) != 0
+  d2f d := d.truncate 32 ^^^ (d >>> 32).truncate 32
+
+def FUEL : Nat := 64
+def DEPTH : Nat := 12
+
+/-! ## context -/
+structure Info where
+  vars : List (Nat × String × Ty)
+  globs : List (Nat × String × Ty × Val)
+  funcs : List (Nat × String)
+  target : Nat
+
+def parseCtx? (s : String) : Option Info := do
+  let parts := s.splitOn ";"
+  let field (k : String) : Option String :=
+    (parts.find? (·.startsWith (k ++ "="))).map fun p => (p.drop (k.length + 1)).toString
+  let items (t : String) : List String := if t.isEmpty then [] else t.splitOn ","
+  let vars ← sequenceOpt ((items (← field "vars")).map fun it =>
+    match it.splitOn ":" with
+    | [i, n, t] => do pure ((← i.toNat?), n, (← tyOf? t))
+    | _ => none)
+  let globs ← sequenceOpt ((items (← field "globs")).map fun it =>
+    match it.splitOn ":" with
+    | [i, n, t, k, v] => do pure ((← i.toNat?), n, (← tyOf? t), (← parseVal? (k ++ ":" ++ v)))
+    | [i, n, t, "v"] => do pure ((← i.toNat?), n, (← tyOf? t), Val.void)
+    | _ => none)
+  let funcs ← sequenceOpt ((items (← field "funcs")).map fun it =>
+    match it.splitOn ":" with
+    | [i, n] => do pure ((← i.toNat?), n)
+    | _ => none)
+  let target ← (← field "target").toNat?
+  pure { vars := vars, globs := globs, funcs := funcs, target := target }
+
+def Info.ctx (inf : Info) : Ctx where
+  locName n := ((inf.vars.find? (·.1 == n)).map (·.2.1)).getD ("?v" ++ toString n)
+  globName n := ((inf.globs.find? (·.1 == n)).map (·.2.1)).getD ("?g" ++ toString n)
+  funcName n := ((inf.funcs.find? (·.1 == n)).map (·.2)).getD ("?f" ++ toString n)
+  vty
+    | .loc n => ((inf.vars.find? (·.1 == n)).map (·.2.2)).getD .void
+    | .glob n => ((inf.globs.find? (·.1 == n)).map (·.2.2.1)).getD .void
+
+/-- C name lookup for the emitted program: an identifier denotes the variable that was given that name -/
+def Info.env (inf : Info) (locals : List Nat) : Ast.Env where
+  res s :=
+    -- parameters and locals of the function first, then globals (C scoping for the names of this subset)
+    match (inf.vars.filter fun v => locals.contains v.1).find? (·.2.1 == s) with
+    | some v => some (.loc v.1)
+    | none => (inf.globs.find? (·.2.1 == s)).map fun g => .glob g.1
+  vty := inf.ctx.vty
+  fres s := (inf.funcs.find? (·.2 == s)).map (·.1)
+
+mutual
+partial def exprVars : Ir.Expr → List Nat
+  | .var n => [n]
+  | .op _ a => exprsVars a
+  | .tern c t f => exprVars c ++ exprVars t ++ exprVars f
+  | .seq a => exprsVars a
+  | .cast _ e => exprVars e
+  | .call _ a => exprsVars a
+  | _ => []
+partial def exprsVars : Ir.Exprs → List Nat
+  | .nil => []
+  | .cons e r => exprVars e ++ exprsVars r
+end
+
+def optVars : Option Ir.Expr → List Nat
+  | none => []
+  | some e => exprVars e
+
+mutual
+partial def stmtVars : Ir.Stmt → List Nat
+  | .expr e => exprVars e
+  | .var n i => n :: optVars i
+  | .block b => stmtsVars b
+  | .ifThen c b => exprVars c ++ stmtsVars b
+  | .ifElse c t f => exprVars c ++ stmtsVars t ++ stmtsVars f
+  | .for i c n b =>
+    (match i with
+      | .empty => []
+      | .expr e => exprVars e
+      | .defs ds => ds.flatMap fun d => d.1 :: optVars d.2) ++ optVars c ++ optVars n ++ stmtsVars b
+  | .while c b => exprVars c ++ stmtsVars b
+  | .doWhile b c => stmtsVars b ++ exprVars c
+  | .ret e => optVars e
+  | _ => []
+partial def stmtsVars : Ir.Stmts → List Nat
+  | .nil => []
+  | .cons s r => stmtVars s ++ stmtsVars r
+end
+
+def showOutcome (inf : Info) (r : Option (Val × List Val × Store)) : String :=
+  match r with
+  | none => "none"
+  | some (ret, ps, σ) =>
+    "r=" ++ showVal ret ++ " p=" ++ ",".intercalate (ps.map showVal) ++
+    " g=" ++ ",".intercalate (inf.globs.map fun g => showVal (σ (.glob g.1)))
+
+def panicCategory (site : String) : String :=
+  if (site.splitOn "negate with overflow").length > 1 then "negate-overflow"
+  else if (site.splitOn "cannot represent").length > 1 then "cannot-represent"
+  else if (site.splitOn "assertion").length > 1 then "assert"
+  else "other"
+
+def parseVectors (s : String) : Option (List (List Val)) :=
+  if s.isEmpty then some [[]] else
+  sequenceOpt ((s.splitOn ";").map fun v =>
+    if v.isEmpty then some [] else sequenceOpt ((v.splitOn ",").map parseVal?))
+
+/-- the emitted program's callable functions: every AST function runs in its own name environment -/
+def astPhi (inf : Info) (irProg : List Ir.Func) (astProg : List (Nat × HlslAst.Func)) : Nat → FEnv
+  | 0 => fun _ _ _ => none
+  | d + 1 => fun f vals σ =>
+    match astProg.find? (·.1 == f), irProg.find? (·.id == f) with
+    | some (_, afn), some ifn =>
+      let env := inf.env (ifn.params.map (·.1) ++ stmtsVars ifn.body)
+      let sig := Ast.sigOf env (astProg.map (·.2))
+      Ast.callFunc { P := concretePrim, phi := astPhi inf irProg astProg d, sig := sig } env FUEL afn vals σ
+    | _, _ => none
+
+def handleFn (vectors ctx ir : String) : String :=
+  let items := parseAll ir
+  if items.any (Sx.hasHead "unsupported") || (ctx.splitOn "unsupported").length > 1 then "unsupported" else
+  match parseCtx? ctx, sequenceOpt (items.map parseFunc?), parseVectors vectors with
+  | some inf, some prog, some vecs =>
+    match prog.find? (·.id == inf.target) with
+    | none => "bad-request: target"
+    | some fn =>
+      let cx := inf.ctx
+      -- the exporter generates every function of the module: the first failure is what the caller sees
+      let gens := prog.map fun f => (f.id, genFunc cx f)
+      let firstErr : Option GenErr := gens.findSome? (fun g => match g.2 with | .error e => some e | .ok _ => none)
+      match firstErr with
+      | some (GenErr.panic site) => "panic " ++ panicCategory site
+      | some (GenErr.unsupported _) => "unsupported"
+      | none =>
+        let astProg : List (Nat × HlslAst.Func) := gens.filterMap fun g => match g.2 with | .ok a => some (g.1, a) | .error _ => none
+        match astProg.find? (·.1 == fn.id) with
+        | none => "bad-request: gen"
+        | some (_, afn) =>
+          let σ0 : Store := fun x => match x with
+            | .glob n => ((inf.globs.find? (·.1 == n)).map (·.2.2.2)).getD .void
+            | .loc _ => .void
+          -- hypotheses of theorem `gen_sem_*`: only under them is a difference between the two semantics a defect of the model
+          let wt := prog.all fun f => Ir.wtFunc (Ir.sigOf prog) cx.vty f
+          let outs := vecs.map fun v =>
+            let r1 := Ir.phi concretePrim prog FUEL DEPTH fn.id v σ0
+            let r2 := astPhi inf prog astProg DEPTH fn.id v σ0
+            let s1 := showOutcome inf r1
+            let s2 := showOutcome inf r2
+            if s1 == s2 || !wt then s1 else s1 ++ " MODEL-AST-DIFF(" ++ s2 ++ ")"
+          "ast " ++ showFunc afn ++ " ;; run " ++ " | ".intercalate outs
+  | _, _, _ => "bad-request"
 
 def handle (op : String) (args : List String) : String :=
-  let _ := (op, args)
-  "unsupported-op"
+  match op, args with
+  | "C01.fn", [_src, name, vectors, ctx, ir] => if name == "-" then "skip" else handleFn vectors ctx ir
+  | "C01.wt", [_src, _name, _vectors, ctx, ir] =>
+    -- do the hypotheses of the theorems hold for this program? (statistics of the correspondence run)
+    match parseCtx? ctx, sequenceOpt ((parseAll ir).map parseFunc?) with
+    | some inf, some prog => if prog.all fun f => Ir.wtFunc (Ir.sigOf prog) inf.ctx.vty f then "wt" else "not-wt"
+    | _, _ => "unsupported"
+  | "C01.fn", _ => "skip"
+  | _, _ => "unsupported-op"
 
 end RsslVerif.Driver.C01
